@@ -105,7 +105,7 @@ def mc_configs(tier, light=False, seed=1):
     ]
 
 
-def run_mc(ctx, tier, workers_each=4, light=False):
+def run_mc(ctx, tier, workers_each=3, light=False):
     cfgs = mc_configs(tier, light, ctx.seed)
     results = {}
 
@@ -135,7 +135,7 @@ def run_mc(ctx, tier, workers_each=4, light=False):
 
 def budgets(tier, scale=1.0):
     if tier == "quick":
-        b = {"n_mc": 900, "n_arity": 500, "n_rot": 52, "n_deep": 260, "n_wide": 200, "n_twin": 48, "units": 8}
+        b = {"n_mc": 800, "n_arity": 450, "n_rot": 52, "n_deep": 260, "n_wide": 200, "n_twin": 48, "units": 8}
     else:
         b = {"n_mc": 9000, "n_arity": 0, "n_rot": 260, "n_deep": 3000, "n_wide": 2500, "n_twin": 400, "units": 8}   # n_arity 0 = whole table
     if scale != 1.0:
